@@ -1,6 +1,6 @@
 (* C11 - no task runs unless the arguments and every task definition are valid. Pinned statements only. *)
 From Coq Require Import List String Bool.
-From RashV Require Import Engine EngineProofs.
+From RashV Require Import Engine EngineProofs HelpDoc HelpDocProofs.
 Import ListNotations.
 
 Theorem C11_rejected_arguments_run_nothing : forall q root fs fuel script env,
@@ -19,3 +19,21 @@ Proof. exact main_invalid_task_runs_nothing. Qed.
 
 Theorem C11_parse_file_all_or_nothing : forall raw ts, parse_file raw = Some ts -> raw = map Some ts.
 Proof. exact parse_file_valid. Qed.
+
+(* "the script's help text is printed": HelpDoc.v mirrors docopt::parse_help (tied by exact comparison
+   with what the binary prints).  A documentation block written the documented way - `# text` lines
+   under the `#!` line - is printed verbatim, followed by the two fixed note lines ... *)
+Theorem C11_documented_help_block_is_printed_verbatim : forall first ts l rest,
+  Forall (fun x => no_nl x = true) (first :: map docline ts ++ l :: rest) ->
+  after_hash l = None ->
+  parse_help (join_nl (first :: map docline ts ++ l :: rest)) = join_nl (ts ++ [note1; note2; ""]).
+Proof. exact documented_block_is_printed_verbatim. Qed.
+
+(* ... and nothing after the first line without a hash sign - the tasks, whatever they contain - reaches
+   the help text or the usage parser *)
+Theorem C11_help_text_ignores_the_tasks : forall first doc l rest rest',
+  Forall (fun x => no_nl x = true) (first :: doc ++ l :: rest) ->
+  Forall (fun x => no_nl x = true) (first :: doc ++ l :: rest') ->
+  after_hash l = None ->
+  parse_help (join_nl (first :: doc ++ l :: rest)) = parse_help (join_nl (first :: doc ++ l :: rest')).
+Proof. exact help_ignores_everything_after_the_first_hashless_line. Qed.
